@@ -155,6 +155,21 @@ def spawn_defers(e: Engine, rep: Report, rule: str, pools: Set[str]):
                 consts = {x.value for x in ast.walk(m.node)
                           if isinstance(x, ast.Constant) and
                           isinstance(x.value, str)}
+                # ... or named in a class-level table the method reads
+                mc = common.merged_class(e, QUEUE)
+                for x in ast.walk(m.node):
+                    if isinstance(x, ast.Attribute) and \
+                            isinstance(x.value, ast.Name) and \
+                            x.value.id in ('self', 'cls'):
+                        for st in getattr(mc, 'node', None).body if \
+                                getattr(mc, 'node', None) is not None else []:
+                            if isinstance(st, ast.Assign) and any(
+                                    isinstance(t, ast.Name) and
+                                    t.id == x.attr for t in st.targets):
+                                consts |= {
+                                    y.value for y in ast.walk(st.value)
+                                    if isinstance(y, ast.Constant) and
+                                    isinstance(y.value, str)}
                 if 'getcurrent' in src and all(
                         p + '_pool' in consts for p in pools):
                     holder_atoms.add('self.%s()' % c.func.attr)
